@@ -82,3 +82,13 @@ CHECKS.update({
     note=R1NOTE + ' Reference scope resolver harness/ref_scope.py (self-tested on hand-resolved programs).',
     technique='Hypothesis property-based testing (scope-shaped generator) with a binding-isomorphism oracle from a reference scope resolver'),
 })
+CHECKS.update({
+ 'C14': dict(
+    text='Hypothesis rule-based state machine over a pool of trees and printer objects of all configurations (pretty, 16 minify flag combinations, obfuscate+indent composition, default): full prints, abandoned generators, raising prints, new printers/trees and shortcut calls in generated order; a reused printer must reproduce the fragment list of a fresh printer, and after every step deep fingerprints of all pooled trees and of the shared rule tables must be unchanged.',
+    note='The reference for one (configuration, tree) pair is the fragment list of a fresh printer of the code under test: the check decides reusability and purity over histories, not the correctness of a single print.',
+    technique='stateful (model-based) property testing with Hypothesis RuleBasedStateMachine; history invariant + fresh-object differential'),
+ 'C15': dict(
+    text='Expected outcome of each of 32 (text, comment flag) calls computed in a fresh interpreter; all call sequences up to length 2 (quick) / 3 (thorough) executed in one process and compared (exhaustive for that bound), Hypothesis-generated histories up to 200 steps interleaving printing and bare lexing, and thread-pool stress under four switch intervals.',
+    note='Thread interleavings are sampled, not enumerated (no schedule control): the concurrent half is randomised stress. Outcomes come from the code under test in a fresh process.',
+    technique='exhaustive short-history enumeration + Hypothesis history generation + randomised thread stress; fresh-process differential oracle'),
+})
